@@ -59,8 +59,13 @@ Orderings == {
 GuardCases == { Case("crl-guards", [Base EXCEPT !.thisUpdate = o[1], !.nextUpdate = o[2], !.revoked = r, !.idp = i], ku, "ed25519", Kid("sha256")) :
                   o \in Orderings, ku \in KuSets, r \in {<<>>, <<E0, E1>>}, i \in {NoIdp, Idp(<<"$u1">>, "user")} }
 
+(* issuers that are not CAs (rcgen signs a CRL under any certificate object): the refusals do not depend on the CA flag *)
+GuardNonCaCases == { kk @@ [issuerIsCa |-> ica] : kk \in { g \in GuardCases : g.params.thisUpdate = This0 /\ g.params.revoked = <<>> /\ g.params.idp = NoIdp },
+                                                  ica \in {[k |-> "NoCa", pl |-> [k |-> "none", n |-> 0]], [k |-> "ExplicitNoCa", pl |-> [k |-> "none", n |-> 0]],
+                                                           [k |-> "Ca", pl |-> [k |-> "some", n |-> 0]]} }
 Reasons == {NoReason} \cup {Reason(n) : n \in {0, 1, 2, 3, 4, 5, 6, 8, 9, 10}}
-Invs == {NoInv, Inv(T(2024, 3, 1, 0, 0, 0, 0, 0)), Inv(T(1949, 12, 31, 23, 59, 59, 0, 0)), Inv(T(2050, 1, 1, 0, 0, 0, 0, 0)),
+Invs == {NoInv, Inv(T(2024, 3, 1, 0, 0, 0, 0, 0)), Inv(T(2024, 4, 1, 0, 0, 0, 0, 0)), Inv(T(2024, 4, 1, 5, 30, 0, 0, 19800)),   \* the last two: the instant of the revocation itself
+         Inv(T(1949, 12, 31, 23, 59, 59, 0, 0)), Inv(T(2050, 1, 1, 0, 0, 0, 0, 0)),
          Inv(T(2050, 1, 1, 0, 30, 0, 999, 3600))}
 (* the same serial number listed twice (put on hold, revoked later): every entry the caller gave is written *)
 RepeatedSerialCases == { Case("crl-entry", [Base EXCEPT !.revoked = <<Entry(<<9>>, T(2024, 4, 1, 0, 0, 0, 0, 0), Reason(6), NoInv),
@@ -111,7 +116,7 @@ SetToSortedSeq(S) == IF S = {} THEN <<>> ELSE LET m == SetMax(S) IN SetToSortedS
 (* every issuer key-usage set: the cRLSign guard must fire for exactly those that are non-empty and lack bit 6 *)
 IssuerKuCases == { Case("crl-issuer-ku", Base, SetToSortedSeq(S), "ed25519", Kid("sha256")) : S \in SUBSET (0..8) }
 
-Cases == IssuerKuCases \cup GuardCases \cup EntryCases \cup RepeatedSerialCases \cup SerialCases \cup IdpCases \cup IdpIssuerDpCases \cup KidCases \cup AlgCases \cup TimeCasesOk
+Cases == IssuerKuCases \cup GuardCases \cup GuardNonCaCases \cup EntryCases \cup RepeatedSerialCases \cup SerialCases \cup IdpCases \cup IdpIssuerDpCases \cup KidCases \cup AlgCases \cup TimeCasesOk
 
 Args(k) == [params |-> k.params, issuer |-> [dn |-> k.issuerDn, ku |-> k.issuerKu, subjectRaw |-> ""],
             signerKey |-> [h |-> "kI", alg |-> k.alg], signerFails |-> FALSE]
